@@ -286,7 +286,9 @@ def build_points(spec):
             rng = np.random.RandomState(int(spec["jitter"]))
             # row-major stream: shrinking away trailing points keeps the others' jitter
             vals = vals + rng.uniform(-0.24, 0.24, size=vals.shape)
-        vals = (vals * float(spec["step"])).astype(dtype)
+        # optional common offset (a molecule far from the origin of its box): differences stay exactly representable,
+        # but any formula that expands |x - y|^2 into |x|^2 - 2xy + |y|^2 cancels catastrophically
+        vals = (vals * float(spec["step"]) + float(spec.get("offset", 0.0))).astype(dtype)
     else:
         vals = (sites * int(spec["step"])).astype(dtype)
     layout = spec.get("layout", "C")
